@@ -337,6 +337,19 @@ class Classifier:
                 for a_ in atoms:
                     if re.match(r"^!\((Vec|<impl \[T\]>|VecDeque)::is_empty\(%s\)\)$" % re.escape(cont), a_) or a_ in ("(Ne(len(%s),const:0))" % cont, "(Gt(len(%s),const:0))" % cont, "(Ge(len(%s),const:1))" % cont):
                         auto = ("guarded", "first element read behind a non-emptiness test of the same container")
+            # v[0] behind `n < v.len()` for an unsigned n: the length exceeds something that is at least zero
+            if auto is None and idx == "const:0":
+                for (rop, x, y) in rels:
+                    if (rop == "Gt" and x in lens) or (rop == "Lt" and y in lens):
+                        auto = ("guarded", "first element read behind `n < len` of the same container (n is unsigned)")
+            # v[n.checked_sub(1)?] / v[n - 1] behind `n < v.len()` or `n <= v.len()`: n - 1 < n <= len
+            if auto is None:
+                mcs = re.match(r"^(?:ok|some)\((?:<impl \w+>::|\w+::)checked_sub\((.*),const:1\)\)$", idx)
+                if mcs:
+                    n_ = mcs.group(1)
+                    for (rop, x, y) in rels:
+                        if (x == n_ and y in lens and rop in ("Lt", "Le")) or (y == n_ and x in lens and rop in ("Gt", "Ge")):
+                            auto = ("guarded", "index is the payload of n.checked_sub(1) and n <= len of the same container dominates")
             # division / remainder by a named constant whose value is known and not zero
             # buf[0..min(buf.len(), x)]
             m = re.match(r"^Range(To)?::Range(To)?\((?:const:0,)?(?:cmp|Ord)::min\((.*)\)\)$", idx)
